@@ -68,11 +68,15 @@ def derived(ctx, dn):
     a = rng.choice(ids)
     b = rng.choice([x for x in ids if x >= a])
     made, kept = [], []
+    from . import c06, c16
+    expected = {"time_slice": lambda: c06.slice_model(m, a, b)}
     made.append(("time_slice", lambda: G.time_slice(a, b), directed))
-    made.append(("time_slice", lambda: G.time_slice(ids[0] - 1, ids[-1] + 1), directed))
+    made.append(("time_slice(all)", lambda: G.time_slice(ids[0] - 1, ids[-1] + 1), directed))
+    expected["time_slice(all)"] = lambda: c06.slice_model(m, ids[0] - 1, ids[-1] + 1)
     if directed:
         made.append(("to_undirected", lambda: G.to_undirected(), False))
-        made.append(("to_undirected", lambda: G.to_undirected(reciprocal=True), False))
+        expected["to_undirected"] = lambda: c16.und_model(m, False)
+        made.append(("to_undirected(reciprocal)", lambda: G.to_undirected(reciprocal=True), False))
     else:
         made.append(("to_directed", lambda: G.to_directed(), True))
     nodetype = int if fam["nodes"] == "int" else str
@@ -103,13 +107,25 @@ def derived(ctx, dn):
                 ctx.violation("derived:%s:raised" % name, dict(exception=repr(ex), window=(a, b)))
                 continue
             raise
-        ctx.cell("derived:" + name)
+        ctx.cell("derived:" + name.split("(")[0])
         guarded(ctx, "derived:" + name, canonical_only, ctx, dn, H, d, "derived:%s:" % name)
+        if name in expected:
+            # where the expected presence of the derived graph is defined without reference to a known finding,
+            # the timelines must be exactly its runs
+            guarded(ctx, "derived:" + name, audit.audit_timelines, ctx, dn, H, expected[name](), "derived:%s:" % name)
         kept.append((name, H, d))
         ctx.nontrivial(m.state_key(), name, (a, b) if name == "time_slice" else None)
-    # the derived graphs stay canonical when their source is updated later (no shared interval lists)
+        name = name.split("(")[0]
+    # the derived graphs stay canonical when they and their source are updated later (no shared interval lists):
+    # each derived graph gets a new one-instant run two instants after the latest run of every pair, then the
+    # source prolongs its own latest runs over that instant
     from .c16 import grow
     try:
+        for name, H, d in kept:
+            for (u, v, dd) in (H.out_interactions() if d else H.interactions()):
+                H.add_interaction(u, v, dd["t"][-1][1] + 2)
+        for (u, v, dd) in (G.out_interactions() if directed else G.interactions()):
+            G.add_interaction(u, v, dd["t"][-1][1], dd["t"][-1][1] + 3)
         grow(ctx, G)
     except Exception as ex:
         from ..guard import raised_in_library
